@@ -1,8 +1,9 @@
 import Driver.Proto
+import Driver.C09Js
 /-! driver handlers for property C09 (ops `model.*`, `spec.*`, `trig.*`) -/
 namespace Verif.Driver.C09
 open Verif Verif.Driver
 
-def handlers : List (String × Handler) := []
+def handlers : List (String × Handler) := [] ++ C09Js.handlers
 
 end Verif.Driver.C09
